@@ -12,7 +12,7 @@ CHECKS = {
     "C02": dict(category="exploration", design_ref="DESIGN.md 5 / C02",
                 technique="bounded-exhaustive enumeration of well-formed images produced by an independent encoder, decoded by generated readers (random access, cursor traversal, get_by_tag) on the real accessors; bit-exact comparison",
                 text="Every image of the bounded space (catalogue shapes x size vectors x value vectors, both byte orders, plus the kinds schema with every primitive and NaN/boundary patterns) is encoded by the reference codec and decoded completely by the emitted accessors; every value (as bit pattern), constant and view address must match. No history, hence exploration.",
-                note="Trusted: compilers, reference codec. Constant evaluation is covered by static_assert tables in C++20 cells of the kinds run."),
+                note="Trusted: compilers, reference codec. Constant evaluation: static_assert tables over constexpr images of the kinds schema on the C++20/23 cells."),
     "C13": dict(category="model_checking", design_ref="DESIGN.md 5 / C13",
                 technique="explicit-state exploration of the real dynamic_array_ref: closed state space (all sequences <= capacity over a 3-letter alphabet), every operation x every argument tuple from every state, std::vector as reference model",
                 text="Every transition of the closed small-state space is executed on the implementation for all 4 length types x 2 byte orders x 3 element types x 2 byte types and compared with std::vector (size prefix, payload, returned iterator, untouched bytes, no assertion for vector-valid ops). Complete within the capacity bound; says nothing about sequences whose intermediate sizes exceed the capacity.",
